@@ -18,10 +18,17 @@ ITEMS = [
     "impl A {\n pub fn try_new(v: u8) -> Option<Self> { None }\n pub fn file(&self) -> u8 { 0 }\n pub fn def(&mut self, x: u8) {}\n pub fn imp(&self) {}\n}",
     "impl A {\n pub fn new() -> Self { todo!() }\n}",
 ]
-KNOWN = {
-    "family-edit-multi": "family(edit(def, imp), ..): a family-level edit list with two or more elements is rejected (\"Unexpected 'edit(live( ? ))' option!\") although the documented family grammar is edit(def, imp(..), trt(..))",
-    "member-edit": "family(actor(first_name = .., edit(..))): the member's edit is parsed with the family parser: edit(script(..)) / edit(live(..)) are rejected and a bare `edit` withholds only the live struct (script enum still emitted)",
-}
+# former witnesses of the two F7 findings (repaired by fix: commits): kept as regression inputs, a recurrence is a VIOLATION
+REGRESSION = [
+    ("family-edit-multi", ("flist", [("s", ("def",)), ("s", ("imp", None))]), [None]),
+    ("family-edit-multi", ("flist", [("s", ("def",)), ("sf", [("imp", None)])]), [None]),
+    ("family-edit-multi", ("flist", [("s", ("trt", None)), ("s", ("imp", [("n", "new")])), ("s", ("def",))]), [None]),
+    ("member-edit", None, [("list", [("p", ("script", [("s", ("imp", [("n", "play")]))]))])]),
+    ("member-edit", None, [("list", [("p", ("live", [("s", ("def",))]))])]),
+    ("member-edit", None, [("bare",)]),
+    ("member-edit", None, [("filebare",)]),
+    ("member-edit", ("bare",), [("list", [("p", ("script", None)), ("pf", [("live", [("s", ("imp", [("n", "new")]))])])])]),
+]
 
 
 def attr_join(*parts):
@@ -81,7 +88,6 @@ def run(rep):
     rep.oblige(not bad)
     if problems or bad:
         rep.violation("theorems", {"what": "property theorem file no longer checks", "problems": problems, "hygiene": bad}, found=False)
-    known_classes = {k["class"] for k in known_findings()["finding"] if k.get("property") == PID}
 
     # ------------------------------------------------------------------------------------------------------------------
     # 2. full models (no edit) from the real macro
@@ -161,21 +167,26 @@ def run(rep):
         for e in (("bare",), ("filebare",)):
             add_actor(m, e, "grammar")
     # families
-    for k in range((160 if quick else 1500) if fams else 0):
+    def add_family(m, fe, mes, origin, tag=None):
+        fmeta = es.to_meta(fe) if fe is not None else None
+        cases.append({"m": m, "kind": "family", "origin": origin, "fam": fe, "fmeta": fmeta, "mems": mes, "regression": tag,
+                      "attr": fam_attr(m, es.meta_text(fmeta) if fmeta else "", [es.meta_text(es.to_meta(x)) if x else "" for x in mes])})
+
+    for m in fams:
+        for tag, fe, mes in REGRESSION:
+            add_family(m, fe, (mes + [None] * len(m["members"]))[:len(m["members"])], "regression", tag)
+    for k in range((220 if quick else 2000) if fams else 0):
         m = fams[k % len(fams)]
-        r = rng.random()
         fe = None
-        if r < 0.75:
-            fe = es.gen_fam(rng, m["parts"][0], bad=0.1 if k % 3 == 0 else 0.0, single=(True if rng.random() < 0.7 else None))
+        if rng.random() < 0.7:
+            fe = es.gen_fam(rng, m["parts"][0], bad=0.1 if k % 3 == 0 else 0.0, single=(True if rng.random() < 0.25 else None))
         mes = []
         for j in range(len(m["members"])):
-            if rng.random() < (0.12 if fe is not None else 0.5):
-                mes.append(es.gen_edit(rng, m["parts"][1 + 2 * j], m["parts"][2 + 2 * j]))
+            if rng.random() < 0.45:
+                mes.append(es.gen_edit(rng, m["parts"][1 + 2 * j], m["parts"][2 + 2 * j], bad=0.08 if k % 4 == 0 else 0.0))
             else:
                 mes.append(None)
-        fmeta = es.to_meta(fe) if fe is not None else None
-        cases.append({"m": m, "kind": "family", "origin": "grammar", "fam": fe, "fmeta": fmeta, "mems": mes,
-                      "attr": fam_attr(m, es.meta_text(fmeta) if fmeta else "", [es.meta_text(es.to_meta(x)) if x else "" for x in mes])})
+        add_family(m, fe, mes, "grammar")
     rng.shuffle(cases)
 
     # real side ----------------------------------------------------------------------------------------------------------
@@ -217,6 +228,9 @@ def run(rep):
             for j, me in enumerate(c["mems"]):
                 ex = "edit_parse_member %s" % es.meta_coq(es.to_meta(me)) if me else "Ok default_ea"
                 items.append(("m%d_%d" % (i, j), "show_res (%s)" % ex))
+                if me:
+                    a = es.ast_coq(me)
+                    items.append(("dm%d_%d" % (i, j), "if nonempty %s then (if legal %s then show_ea (denote %s) else \"DIAG\") else \"OUTSIDE\"" % (a, a, a)))
                 binds += "e%d <- %s ;; " % (j, ex)
                 mems.append("(e%d, %s, %s)" % (j, coq_part(m["parts"][1 + 2 * j]), coq_part(m["parts"][2 + 2 * j])))
             items.append(("c%d" % i, "show_code_edit (e <- %s ;; %sfamily_code_edit e %s %s)" % (
@@ -315,15 +329,6 @@ def run(rep):
                     return False, "%s: emitted %s + withheld %s is not the full model %s" % (t, cp[fld], wh[fld], full[fld])
         return True, ""
 
-    def known_class(c):
-        if c["kind"] != "family":
-            return None
-        if any(me is not None for me in c["mems"]):
-            return "member-edit"
-        if c["fam"] is not None and c["fam"][0] == "flist" and len(c["fam"][1]) != 1:
-            return "family-edit-multi"
-        return None
-
     for i, c in enumerate(cases):
         rep.evaluations += 1
         rep.count("origin", c["kind"] + "/" + c["origin"])
@@ -348,77 +353,50 @@ def run(rep):
             rep.nontrivial.add(spec_class(c["kind"], orc[2], verdict))
         else:
             rep.nontrivial.add((c["kind"], verdict, orc[0], orc[1] if len(orc) > 1 else ""))
-        # declarative meaning vs real parser (the theorem C15_parse_grammar instantiated on the real code)
+        # declarative meaning vs real parser (C15_parse_grammar / C15_family_parse / C15_member_parse instantiated on the real code);
+        # the real parser reports one verdict for the whole attribute, so lines are compared only when everything was accepted
         den_ok = True
-        if ("d%d" % i) in vals and c["kind"] == "actor":
-            d = unq(vals["d%d" % i])
-            if d != "OUTSIDE":
-                real_line = c["real_parse"][0] if isinstance(c["real_parse"], list) else c["real_parse"]
-                den_ok = d == real_line
-        elif ("d%d" % i) in vals and known_class(c) is None:
-            d = unq(vals["d%d" % i])
-            if d != "OUTSIDE":
-                real_line = c["real_parse"][0] if isinstance(c["real_parse"], list) else c["real_parse"]
-                den_ok = d == real_line
+        if isinstance(c["real_parse"], list):
+            got = [c["real_parse"][0]] + [x.split("=", 1)[1] for x in c["real_parse"][1:]]
+            dens = [vals.get("d%d" % i)] + ([vals.get("dm%d_%d" % (i, j)) for j in range(len(c["mems"]))] if c["kind"] == "family" else [])
+            for g, d in zip(got, dens):
+                if d is not None and unq(d) != "OUTSIDE" and unq(d) != g:
+                    den_ok = False
+        else:
+            dens = [vals.get("d%d" % i)] + ([vals.get("dm%d_%d" % (i, j)) for j in range(len(c["mems"]))] if c["kind"] == "family" else [])
+            dens = [unq(d) for d in dens if d is not None]
+            if dens and "OUTSIDE" not in dens and c["real_parse"] == "DIAG" and "DIAG" not in dens and c["kind"] == "actor":
+                den_ok = False
         holds, why = oracle_holds(c, orc)
         if c.get("slip") and orc[0] != "reject":
             raise Infra("slip generator produced a specification the oracle does not reject: %s %s" % (c["slip"], c["attr"]))
         if c.get("slip"):
             rep.count("slip", re.sub(r"-(script|live)", "", c["slip"]))
-        kc = known_class(c)
         if i % 97 == 0:
             rep.sample({"attr": c["attr"], "real_parse": c["real_parse"], "real": c["real_ce"][:200], "model": model_ce[:200], "oracle": orc[0]})
-        if kc is not None and kc in known_classes:
-            # known defect class: either it is still there (real == faithful model, oracle fails) or it has been repaired (oracle holds)
-            if holds:
-                rep.oblige(True)
-            elif ce_ok and parse_ok:
-                rep.oblige(True)
-                known_hit.setdefault(kc, {"attr": c["attr"], "why": why})
-            else:
-                rep.oblige(False)
-                rep.violation("known_class_changed_" + kc, {"what": "input of known class %s: real output satisfies neither the property nor the recorded defective behaviour" % kc,
-                                                            "attr": c["attr"], "item": c["m"]["item"], "real": c["real_ce"], "model": model_ce, "oracle": why}, found=True)
-            continue
         ok = rep.oblige(parse_ok) & rep.oblige(ce_ok) & rep.oblige(den_ok) & rep.oblige(holds)
         if ok:
             continue
         diffs += 1
-        if diffs > 6:
+        if c.get("regression"):
+            if c["regression"] in known_hit:
+                continue
+            known_hit[c["regression"]] = c["attr"]
+        elif diffs > 6:
             continue
         data = {"kind": c["kind"], "attr": c["attr"], "item": c["m"]["item"], "full_model": c["m"]["full_seq"],
                 "real_parse": c["real_parse"], "model_parse": model_p, "real_code_edit": c["real_ce"], "model_code_edit": model_ce,
                 "replay": "hook job fn:code_edit ['', %r, attr, item]" % c["kind"]}
         if not holds:
             data["what"] = "the real macro violates C15 on this input: " + why
+            if c.get("regression"):
+                data["what"] = "RECURRENCE of the repaired defect %s: " % c["regression"] + data["what"]
             data["expected"] = why
-            rep.violation("edit_%d" % diffs, data, found=True)
+            rep.violation(("regression_%s_%d" % (c["regression"], diffs)) if c.get("regression") else "edit_%d" % diffs, data, found=True)
         else:
             data["what"] = ("correspondence between Gen/Edit.v and the real code no longer checks (parse %s, split %s, declarative meaning %s); the property's oracle holds on the real output "
                             "(input outside the documented grammar or model drift)" % (parse_ok, ce_ok, den_ok))
             rep.violation("edit_tie_%d" % diffs, data, found=False)
-
-    # known findings: replay the witnesses on the real code -----------------------------------------------------------------------
-    item = ITEMS[0]
-    wit = [("family-edit-multi", 'edit(def, imp), actor(first_name = "U")'),
-           ("member-edit", 'actor(first_name = "U", edit(script(imp(play))))'),
-           ("member-edit", 'actor(first_name = "U", edit)')]
-    wres = hook.run_batch([("fn:code_edit", ["", "family", a, item]) for _, a in wit] + [("fn:code_edit", ["", "family", 'actor(first_name = "U")', item])], tag="c15w")
-    full = es.recognise(wres[-1][1][0]) if wres[-1][0] == "VALUE" else None
-    still = {}
-    for (kc, a), (cls, f) in zip(wit, wres):
-        if cls == "DIAG":
-            still.setdefault(kc, []).append("%s -> rejected" % a)
-        elif cls == "VALUE" and a.endswith("edit)") and full is not None:
-            rec = es.recognise(f[0])
-            if rec is not None and any(k == "def" and t == "UAScript" for k, t, _ in rec):
-                still.setdefault(kc, []).append("%s -> script enum UAScript still emitted" % a)
-    for kc in sorted(set(list(still) + list(known_hit))):
-        if kc in known_classes:
-            rep.known_finding("%s: %s [witness: %s]" % (kc, KNOWN[kc], "; ".join(still.get(kc, [known_hit.get(kc, {}).get("attr", "")]))))
-        else:
-            rep.violation("unlisted_" + kc, {"what": KNOWN[kc], "witness": still.get(kc), "hit": known_hit.get(kc)}, found=True)
-    rep.extra["known_classes_hit_in_corpus"] = {k: v["attr"] for k, v in known_hit.items()}
 
     # ------------------------------------------------------------------------------------------------------------------
     # 4. end to end: what is really written to the source file
